@@ -34,7 +34,7 @@ TEXT = {
  'C08': ('reference arithmetic on the return value of ignore_warnings_and_count fed by real logging calls; exhaustive small sub-domain',
          'Held on the executions produced, incl. an exhaustive enumeration of a small sub-domain; the function is pure arithmetic so exploration with an exact reference is adequate.'),
  'C09': ('exact weighted-mean oracle (fsum), NaN rule, bounding box and rigid-motion equivariance by paired executions; particles from the real do_mapping; processor object reused across differently configured force fields',
-         'Held on the executions produced: generated particles with shared atoms, zero weights, missing coordinates, centre weights, 2-D/3-D.'),
+         'Held on the executions produced: generated particles with shared atoms, zero weights, weights far below 1, missing coordinates, centre weights, 2-D/3-D.'),
  'C10': ('O(N^2) pairwise reference with an independent Bondi table; tag-based conservation and residue-integrity checks on MakeBonds output',
          'Held on the executions produced: fragments of real structures and point clouds with planted near-threshold pairs, all modes and fudge factors.'),
  'C11': ('paired real CLI runs in separate processes (presentation applied in memory to read_system or to the input file itself: atom order, hydrogen names, rigid motion, hash seed; PDB and GRO input), pairwise comparison of the parsed output files; three known findings classified by mechanism',
@@ -53,7 +53,7 @@ TEXT = {
          'Held on the executions produced; DSSP strings are enumerated exhaustively up to length 4 (quick) / 6 (thorough).'),
  'C18': ('set-based reference for Go sites and contacts on the objects after GoPipeline.run_system',
          'Held on the executions produced: generated multi-chain systems with cross-links and contact maps straddling every filter.'),
- 'C19': ('per-specification residue matcher reference on node attributes and warnings after AnnotateMutMod; atom sets after the real RepairGraph; second-round requests on copies and on repaired systems',
+ 'C19': ('per-specification residue matcher reference on node attributes and warnings after AnnotateMutMod; atom sets after the real RepairGraph; second-round requests on copies and on repaired systems; one processor object run on two systems',
          'Held on the executions produced: generated systems and specification lists using every subset of parts.'),
 }
 
